@@ -276,7 +276,7 @@ class Stats:
         self.sample = None
 
 
-def explore(ctx, key, state, hist, depth, st, qrate, rng):
+def explore(ctx, key, state, hist, depth, st, qrate, rng, root=False):
     """ctx.obj realises `state`. Check it, query it, then try every action."""
     st.nodes += 1
     try:
@@ -289,7 +289,7 @@ def explore(ctx, key, state, hist, depth, st, qrate, rng):
         if len(st.viol) < 10:
             st.viol.append((list(hist), bad))
         return
-    if not ctx.complex and (qrate >= 1.0 or rng.random() < qrate):
+    if not ctx.complex and (root or qrate >= 1.0 or rng.random() < qrate):
         try:
             n, bad = battery(ctx, state)
             st.queries += n
@@ -350,15 +350,15 @@ def explore_chunk(args):
         except Exception as e:
             st.viol.append((h, ("raised:construct", "%s: %s" % (type(e).__name__, e))))
             continue
-        explore(ctx, tk, to, h, d, st, qrate, rng)
+        explore(ctx, tk, to, h, d, st, qrate, rng, root=True)
     return st
 
 
-def derived_lts(run, classes, maxops, maxsize, name):
+def derived_lts(run, classes, maxops, maxsize, name, K=5):
     """labelled transition system of Derived.tla. The stuttering query actions are taken from a run with MaxOps = 0
     (they are enabled in every built state; leaving them out of the big run keeps its output small)."""
     def go(ops, withq, nm):
-        c = core.cfg(constants=dict(Classes=set(classes), K=TABS.K, MaxWord=2, MaxOps=ops, MaxSize=maxsize, WithQueries=withq),
+        c = core.cfg(constants=dict(Classes=set(classes), K=K, MaxWord=2, MaxOps=ops, MaxSize=maxsize, WithQueries=withq),
                      invariants=["TypeOK", "Coherent"], view="View", action_constraints=["Emit"])
         return run.tlc("comp/Derived.tla", c, name=nm, workers=min(8, core.NCPU))
     queries = {}
@@ -436,14 +436,32 @@ def run(run, replay=None):
     run.assumptions += [
         "classes: projective Polygon, hyperbolic Polygon, Segment, TangentVector (derived data) and hyperbolic Point; "
         "dimension 2 (and 3 with a smaller depth)",
-        "histories: constructor (from array / list of objects / object) then up to %d (quick) / 3 (thorough) "
-        "state-changing calls, objects of at most 6 units, at most two transformations per unit" % 2,
+        "histories: constructor (from array / list of objects / object) then up to 2 (quick) / 3 (thorough) "
+        "state-changing calls (one less for the list / object constructor routes, in dimension 3, and in the thorough tier "
+        "for hyperbolic Point), objects of at most 6 units, at most two transformations per unit; the query battery runs "
+        "after the constructor and on a seeded fraction (25% quick / 6% thorough) of the later states",
         "queries are not executed on complex-valued objects (after astype(complex128)); tolerance 5e-4 after float32",
         "ConvexPolygon is not covered (composite use documented as unsupported)",
     ]
     depth = 2 if quick else 3
-    TABS = cc.load_all(run, maxrank=2 if quick else 3, dims=(2, 3), K=5, maxword=2)
-    LTS, QUERIES = derived_lts(run, DERIVED_CLASSES, depth, 6, "Derived_depth%d" % depth)
+    # the TLC runs are independent: explore Derived.tla while the payload / index tables are produced
+    import threading
+    box = {}
+
+    def lts_job():
+        try:
+            box["lts"] = derived_lts(run, DERIVED_CLASSES, depth, 6, "Derived_depth%d" % depth, K=5)
+        except BaseException as e:
+            box["err"] = e
+    th = threading.Thread(target=lts_job)
+    th.start()
+    try:
+        TABS = cc.load_all(run, maxrank=2 if quick else 3, dims=(2, 3), K=5, maxword=2)
+    finally:
+        th.join()
+    if "err" in box:
+        raise box["err"]
+    LTS, QUERIES = box["lts"]
     nproc = min(8, core.NCPU)
     # jobs: one per (class, dimension, constructor transition)
     jobs = []
@@ -452,11 +470,15 @@ def run(run, replay=None):
             continue
         for (act, tk, to) in succ:
             cls = key[0]
-            # every route at full depth in dimension 2 for the array route; other routes and dimension 3 one level less
-            jobs.append((cls, 2, act, tk, to, depth if act["route"] == "array" else depth - 1))
-            jobs.append((cls, 3, act, tk, to, depth - 1 if act["route"] == "array" else max(depth - 2, 0)))
+            # full depth in dimension 2 for the array route; the other constructor routes, dimension 3 and (thorough) the
+            # class without derived data one level less
+            d2 = depth if act["route"] == "array" else depth - 1
+            if cls == "HPoint" and not quick:
+                d2 -= 1
+            jobs.append((cls, 2, act, tk, to, d2))
+            jobs.append((cls, 3, act, tk, to, max(d2 - 1, 0)))
     jobs.sort(key=lambda j: -j[5])
-    qrate = 0.25 if quick else 0.1
+    qrate = 0.25 if quick else 0.06
     # interleave jobs over the workers, heavy ones first
     chunks = [jobs[i::nproc * 4] for i in range(nproc * 4)]
     with mp.get_context("fork").Pool(nproc) as pool:
